@@ -68,8 +68,8 @@ fn is_bare(l: &str) -> bool {
     !l.is_empty() && l.chars().all(|c| c.is_ascii_alphanumeric())
 }
 
-const KEYWORDS: [&str; 22] = [
-    "and", "andy", "c", "neg1", "s", "ac", "or", "iff", "xor", "imp", "neg", "v", "f", "cv", "cf", "nega", "orc", "sac",
+const KEYWORDS: [&str; 25] = [
+    "and", "andy", "c", "neg1", "s", "ac", "or", "iff", "xor", "imp", "neg", "v", "f", "cv", "cf", "nega", "orc", "sac", "true", "false", "not",
     "ands", "impl", "xors", "iffy",
 ];
 const QUOTED: [&str; 26] = [
